@@ -11,7 +11,7 @@ import argparse, json, os, subprocess, sys, time, shutil
 from concurrent.futures import ThreadPoolExecutor
 
 VERIF = os.path.dirname(os.path.dirname(os.path.abspath(__file__)))
-REPO = '/repo'
+REPO = os.environ.get('VERIF_REPO', '/repo')   # the checks honour the same variable (a scratch worktree for isolated runs)
 
 
 def git(*a, check=True):
